@@ -114,6 +114,15 @@ def main():
                 signal.alarm(0)
                 import traceback
                 out.append(["CHECKER-EXCEPTION %s: %s %s" % (type(x).__name__, x, traceback.format_exc()[-600:])])
+    elif req['cmd'] == 'procs_series':
+        from pvc.native import procs as _P
+        out = []
+        for c in req['cases']:
+            try:
+                with contextlib.redirect_stdout(io.StringIO()):
+                    out.append(_P.series(c))
+            except Exception as x:
+                out.append({"error": "%s: %s" % (type(x).__name__, x)})
     elif req['cmd'] == 'corpus':
         mod = importlib.import_module('pvc.native.' + req['prop'].lower())
         with contextlib.redirect_stdout(io.StringIO()):
